@@ -44,6 +44,7 @@ fn bytes_eq(a: &[u8], b: &[u8]) -> bool {
 #[kani::proof]
 #[kani::unwind(12)]
 #[kani::stub(verif_support::reexp::catch_unwind, verif_support::stub_cu)]
+#[kani::stub(TimestampCfg::get_timestamp, cut_get_timestamp)]
 fn c16_as_pathbuf_parts() {
     as_pathbuf_parts_case(true);
 }
@@ -52,6 +53,7 @@ fn c16_as_pathbuf_parts() {
 #[kani::proof]
 #[kani::unwind(12)]
 #[kani::stub(verif_support::reexp::catch_unwind, verif_support::stub_cu)]
+#[kani::stub(TimestampCfg::get_timestamp, cut_get_timestamp)]
 fn c16_as_pathbuf_parts_no_basename() {
     as_pathbuf_parts_case(false);
 }
@@ -115,6 +117,7 @@ fn as_pathbuf_parts_case(has_b: bool) {
 #[kani::proof]
 #[kani::unwind(14)]
 #[kani::stub(verif_support::reexp::catch_unwind, verif_support::stub_cu)]
+#[kani::stub(TimestampCfg::get_timestamp, cut_get_timestamp)]
 fn c16_as_pathbuf_trailing_underscore() {
     vs::link_all();
     let has_d: bool = kani::any();
@@ -133,6 +136,31 @@ fn c16_as_pathbuf_trailing_underscore() {
     push(&mut buf, &mut n, b".l");
     assert!(bytes_eq(p.as_os_str().as_bytes(), &buf[..n]));
     kani::cover!(has_d && has_i, "all parts");
+    std::mem::forget(spec);
+    std::mem::forget(p);
+}
+
+// @verif prop=C16 tier=quick timeout=600 bounds=suffix-present-but-empty(as-derived-from-a-path-ending-in-a-dot),infix-present/absent
+// A present-but-empty suffix is still a suffix: the name ends in the dot ("b." / "b_r1."), which is what FileSpec::try_from("d/b.") must denote and what the listing (extension == "") expects.
+#[kani::proof]
+#[kani::unwind(12)]
+#[kani::stub(verif_support::reexp::catch_unwind, verif_support::stub_cu)]
+#[kani::stub(TimestampCfg::get_timestamp, cut_get_timestamp)]
+fn c16_as_pathbuf_empty_suffix() {
+    vs::link_all();
+    let has_i: bool = kani::any();
+    let spec = mk_spec("b", None, Some(""));
+    let p = spec.as_pathbuf(if has_i { Some("r1") } else { None });
+    let mut buf = [0u8; 32];
+    let mut n = 0usize;
+    push(&mut buf, &mut n, b"d/b");
+    if has_i {
+        push(&mut buf, &mut n, b"_r1");
+    }
+    push(&mut buf, &mut n, b".");
+    assert!(bytes_eq(p.as_os_str().as_bytes(), &buf[..n]));
+    kani::cover!(has_i, "with infix");
+    kani::cover!(!has_i, "without infix");
     std::mem::forget(spec);
     std::mem::forget(p);
 }
@@ -167,6 +195,7 @@ fn expect(spec: &FileSpec, name: &str, suffix: Option<&str>, want: bool) {
 #[kani::proof]
 #[kani::unwind(16)]
 #[kani::stub(verif_support::reexp::catch_unwind, verif_support::stub_cu)]
+#[kani::stub(TimestampCfg::get_timestamp, cut_get_timestamp)]
 fn c14_filter_menu_basename() {
     vs::link_all();
     let spec = family_spec();
@@ -186,6 +215,7 @@ fn c14_filter_menu_basename() {
 #[kani::proof]
 #[kani::unwind(26)]
 #[kani::stub(verif_support::reexp::catch_unwind, verif_support::stub_cu)]
+#[kani::stub(TimestampCfg::get_timestamp, cut_get_timestamp)]
 fn c14_filter_restart_member() {
     vs::link_all();
     let spec = family_spec();
@@ -198,6 +228,7 @@ fn c14_filter_restart_member() {
 #[kani::proof]
 #[kani::unwind(16)]
 #[kani::stub(verif_support::reexp::catch_unwind, verif_support::stub_cu)]
+#[kani::stub(TimestampCfg::get_timestamp, cut_get_timestamp)]
 fn c14_filter_menu_discriminant_only() {
     vs::link_all();
     let spec = mk_spec("", Some("dc"), Some("l"));
@@ -214,6 +245,7 @@ fn c14_filter_menu_discriminant_only() {
 #[kani::proof]
 #[kani::unwind(16)]
 #[kani::stub(verif_support::reexp::catch_unwind, verif_support::stub_cu)]
+#[kani::stub(TimestampCfg::get_timestamp, cut_get_timestamp)]
 fn c14_filter_menu_infix_only() {
     vs::link_all();
     let spec = mk_spec("", None, Some("l"));
@@ -229,6 +261,7 @@ fn c14_filter_menu_infix_only() {
 #[kani::proof]
 #[kani::unwind(16)]
 #[kani::stub(verif_support::reexp::catch_unwind, verif_support::stub_cu)]
+#[kani::stub(TimestampCfg::get_timestamp, cut_get_timestamp)]
 fn c14_filter_separator_not_checked() {
     vs::link_all();
     let spec = family_spec();
@@ -240,6 +273,7 @@ fn c14_filter_separator_not_checked() {
 #[kani::proof]
 #[kani::unwind(16)]
 #[kani::stub(verif_support::reexp::catch_unwind, verif_support::stub_cu)]
+#[kani::stub(TimestampCfg::get_timestamp, cut_get_timestamp)]
 fn c14_filter_tail_ignored() {
     vs::link_all();
     let spec = family_spec();
@@ -251,6 +285,7 @@ fn c14_filter_tail_ignored() {
 #[kani::proof]
 #[kani::unwind(16)]
 #[kani::stub(verif_support::reexp::catch_unwind, verif_support::stub_cu)]
+#[kani::stub(TimestampCfg::get_timestamp, cut_get_timestamp)]
 fn c10_filter_multibyte_boundary() {
     vs::link_all();
     let spec = family_spec();
